@@ -68,6 +68,7 @@ func gcsQueries(c *Ctx, items [][]byte) [][][]byte {
 }
 
 func runC13(c *Ctx) {
+	c.Conc = true // stateless calls are also replayed from several goroutines at once
 	r := c.Rng
 	c.Batch = 20
 	keys := [][]byte{make([]byte, 16), randBytes(r, 16), randBytes(r, 16)}
@@ -140,6 +141,7 @@ func runC13(c *Ctx) {
 }
 
 func runC14(c *Ctx) {
+	c.Conc = true // stateless calls are also replayed from several goroutines at once
 	r := c.Rng
 	c.Batch = 20
 	// exact bytes / serialisations for a spread of parameters (the Gcs verdict checks them)
